@@ -17,7 +17,8 @@
     * TOTAL       `expand_total`    — a receiver that reads as a value has a result for all
                                       sufficiently large `k` (`none` only ever means "descend further").
 
-  `Shift` and `Normalize` have the same shape and the same three theorems; `Complement` allocates
+  `Shift`, `Normalize` (same shape) and `Reverse` (a loop from both ends) have the same three
+  theorems; `Complement` allocates
   nothing and SHARES the receiver's slices (`complement_shares`).  `asComplete` itself refines
   `Loc.asComplete` on EVERY readable argument and changes nothing in the heap but partial markers
   (`asComplete_refines`, `asComplete_only_erases`).
@@ -29,6 +30,7 @@
 -/
 import Gts.Lemmas.MemLocTotal
 import Gts.Lemmas.MemLocComplete
+import Gts.Lemmas.MemLocReverse
 namespace Gts.C11
 open Gts Gts.Mem Gts.Mem.Heap
 
@@ -172,6 +174,36 @@ example :
       (readLoc 8 r.2 r.1).beq (Loc.normalize (.joined [.ranged 2 9 false false, .ranged 14 22 false false]) 20) &&
       (sliceArrs r.2 8 r.1).all (1 ≤ ·)) = some true := by
   decide +kernel
+
+/-- **`Reverse` is fresh, refines `Loc.reverse`, and is total.**  Its element loop runs from both
+ends (`ll[l], ll[r] = v[r].Reverse(n), v[l].Reverse(n)`: two calls, then two stores; the middle
+element of an odd length is reversed twice and the second store wins) into a `make`d slice, then
+`Join` / `Order`: for every heap, receiver, length, capacity policy and fuel the result lies in
+arrays allocated by the call and nothing that existed is written (the seeded change "`Ordered.Reverse`
+reverses the receiver's parts in place" is what this excludes); on a readable receiver the result
+reads as `Loc.reverse l len`; a readable receiver has a result, the same for all large fuels. -/
+theorem reverse_fresh (g : Grow) (len : Int) (k : Nat) (h : LHeap) (m : MLoc) {r : MLoc × LHeap}
+    (he : reverseMem g len k h m = some r) :
+    h <+: r.2 ∧ RefsAbove h.length r.1 ∧ Closed h.length r.2 :=
+  have p := reverseMem_fresh g len k h m r he
+  ⟨p.pre, p.refs, p.closed⟩
+
+theorem reverse_refines (g : Grow) (len : Int) (k : Nat) {h : LHeap} {m : MLoc} {l : Loc}
+    (hl : Reads h l m) {r : MLoc × LHeap} (he : reverseMem g len k h m = some r) :
+    Reads r.2 (l.reverse len) r.1 :=
+  reverseMem_refines g len k h m r l he hl
+
+theorem reverse_total (g : Grow) (len : Int) {h : LHeap} {m : MLoc} {l : Loc} (hl : Reads h l m) :
+    ∃ k0 r, ∀ k, k0 ≤ k → reverseMem g len k h m = some r := by
+  obtain ⟨k0, r, e⟩ := reverseMem_total g len l h m hl
+  exact ⟨k0, r, fun k hk => reverseMem_le g len k0 k hk h m r e⟩
+
+/-- non-vacuity: the example reversed on a sequence of length 24 (an even and an odd number of
+parts at the two levels): a result with fuel 4, equal to the pure `Loc.reverse`, in new arrays -/
+example :
+    ((reverseMem (fun _ n => n) 24 4 exMem.2 exMem.1).map fun r =>
+      (readLoc 8 r.2 r.1).beq (exLoc.reverse 24) && (sliceArrs r.2 8 r.1).all (4 ≤ ·) &&
+      (readLoc 8 r.2 exMem.1).beq exLoc) = some true := by decide +kernel
 
 /-- **`Complement` allocates nothing and SHARES**: the result reads as `Loc.complement`, in the
 same heap; wrapping a `Joined` / `Ordered` keeps the receiver's own slice header inside the result
